@@ -526,9 +526,10 @@ type HookRec struct {
 }
 
 type World struct {
-	Sub   *dagsync.Subscriber
-	Store *LogStore
-	Pubs  []*Pub
+	Sub    *dagsync.Subscriber
+	Store  *LogStore
+	Pubs   []*Pub
+	NoRecv bool
 
 	mu    sync.Mutex
 	Hooks []HookRec
@@ -544,11 +545,20 @@ func NewWorld(pubs []*Pub, opts ...dagsync.Option) *World {
 // NewWorldWithHost is NewWorld with a libp2p host (for a subscriber that listens on a gossip
 // topic; pass dagsync.RecvAnnounce(topic, ...) among opts: the last RecvAnnounce wins).
 func NewWorldWithHost(h host.Host, pubs []*Pub, opts ...dagsync.Option) *World {
-	w := &World{Store: NewLogStore(), Pubs: pubs, peers: map[peer.ID]int{}}
+	return newWorld(h, pubs, false, opts...)
+}
+
+// NewWorldNoRecv creates a subscriber without an announcement receiver.
+func NewWorldNoRecv(pubs []*Pub, opts ...dagsync.Option) *World {
+	return newWorld(nil, pubs, true, opts...)
+}
+
+func newWorld(h host.Host, pubs []*Pub, noRecv bool, opts ...dagsync.Option) *World {
+	w := &World{Store: NewLogStore(), Pubs: pubs, peers: map[peer.ID]int{}, NoRecv: noRecv}
 	for _, p := range pubs {
 		w.peers[p.ID] = p.Idx
 	}
-	hook := func(p peer.ID, c cid.Cid, _ dagsync.SegmentSyncActions) {
+	hook := func(p peer.ID, c cid.Cid, act dagsync.SegmentSyncActions) {
 		t := Tick()
 		g := Goid()
 		w.mu.Lock()
@@ -558,8 +568,21 @@ func NewWorldWithHost(h host.Host, pubs []*Pub, opts ...dagsync.Option) *World {
 		}
 		w.Hooks = append(w.Hooks, HookRec{idx, c, t, g})
 		w.mu.Unlock()
+		// what a real block hook does for segmented syncs: name the advertisement to go on
+		// with (the previous one in the chain)
+		if ok && act != nil {
+			if i := w.Pubs[idx].Index(c); i > 0 {
+				act.SetNextSyncCid(w.Pubs[idx].Chain[i-1])
+			} else if i == 0 {
+				act.SetNextSyncCid(cid.Undef)
+			}
+		}
 	}
-	all := append([]dagsync.Option{dagsync.RecvAnnounce(""), dagsync.BlockHook(hook)}, opts...)
+	all := []dagsync.Option{dagsync.BlockHook(hook)}
+	if !w.NoRecv {
+		all = append(all, dagsync.RecvAnnounce(""))
+	}
+	all = append(all, opts...)
 	sub, err := dagsync.NewSubscriber(h, w.Store.LinkSystem(), all...)
 	if err != nil {
 		panic(err)
